@@ -24,6 +24,7 @@ Rules (applied bottom-up, to a fixpoint; the result is a deep copy, the parsed m
            uses unless a later statement stores to that path or to a prefix of it (stores are looked at through all other
            path aliases); a local with one binding and ONE use whose value is any expression is replaced unless a later
            statement stores to something the expression reads, or the use is evaluated repeatedly (loop / comprehension body)
+  dispatch a local dict literal with literal keys that is only indexed (`D[x]`) and tested (`x in D`) -> if / elif on `==`
   inline   a call to a PRIVATE function of the package (module-level function, also imported with `from pyxel.x import _f`;
            `self._m(...)` / `cls._m(...)` / `Class._m(...)` of the same class or a base class) is replaced by its normalised
            body: as an expression when the body is `return <expr>` (after the rules above), as statements (locals renamed,
@@ -350,6 +351,7 @@ class Normalizer:
             self._bound = bound_names(fn)
             rewrite_blocks(fn, self._block_pass(rel, cls, depth))
             procedure_tail(fn)
+            dispatch_dicts(fn)
             fn = _Exprs(self, rel, cls, depth, bound_names(fn)).visit(fn)
             subst_aliases(fn)
             ast.fix_missing_locations(fn)
@@ -844,6 +846,70 @@ def guard_form(blk):
                 continue
         out.append(s)
     return out
+
+
+def dispatch_dicts(fn):
+    """a local `D = {<literal>: <name / path / literal>, ...}` (one binding, not in a loop) that is only used as `D[x]` inside
+    simple statements and in `x in D` / `x not in D`:   S(D[x])  ->  if x == k1: S(v1)  elif x == k2: S(v2) ... else: raise
+    KeyError(x);   `x in D` -> `x in (k1, k2, ...)`."""
+    pre = _preorder(fn)
+    for s, blk, i, loop in pre:
+        if not (isinstance(s, ast.Assign) and len(s.targets) == 1 and isinstance(s.targets[0], ast.Name)
+                and isinstance(s.value, ast.Dict) and s.value.keys and not loop):
+            continue
+        name, d = s.targets[0].id, s.value
+        if any(k is None or not isinstance(k, ast.Constant) for k in d.keys) \
+                or any(not (path_of(v) is not None or is_literal(v)) for v in d.values):
+            continue
+        binds = [n for n in ast.walk(fn) if isinstance(n, ast.Name) and n.id == name and not isinstance(n.ctx, ast.Load)]
+        if len(binds) != 1 or name in {a.arg for a in fn.args.args}:
+            continue
+        loads = {id(n) for n in ast.walk(fn) if isinstance(n, ast.Name) and n.id == name and isinstance(n.ctx, ast.Load)}
+        later = {id(n) for t in blk[i + 1:] for n in ast.walk(t)}
+        if not loads or not loads <= later:
+            continue
+        subs, tests, stmts = [], [], []
+        for t, tblk, ti, _ in pre:
+            if not isinstance(t, (ast.Return, ast.Assign, ast.Expr, ast.AugAssign, ast.If, ast.Raise)):
+                continue
+            for n in _own_exprs(t):
+                if isinstance(n, ast.Subscript) and isinstance(n.value, ast.Name) and n.value.id == name \
+                        and isinstance(n.ctx, ast.Load) and path_of(n.slice) is not None and not isinstance(t, ast.If):
+                    subs.append(n)
+                    stmts.append((t, tblk, n))
+                elif isinstance(n, ast.Compare) and len(n.ops) == 1 and isinstance(n.ops[0], (ast.In, ast.NotIn)) \
+                        and isinstance(n.comparators[0], ast.Name) and n.comparators[0].id == name:
+                    tests.append(n)
+        if len(subs) + len(tests) != len(loads) or not subs or len({id(t) for t, _, _ in stmts}) != len(stmts):
+            continue
+        for n in tests:
+            n.comparators[0] = ast.Tuple(elts=[copy.deepcopy(k) for k in d.keys], ctx=ast.Load())
+        for t, tblk, n in stmts:
+            x = n.slice
+            chain = [ast.Raise(exc=ast.Call(func=ast.Name(id="KeyError", ctx=ast.Load()), args=[copy.deepcopy(x)], keywords=[]),
+                               cause=None)]
+            for k, v in reversed(list(zip(d.keys, d.values))):
+                # deep copy of t in which the node corresponding to n is replaced by v
+                marker = ast.Name(id="__dispatch_marker__", ctx=ast.Load())
+                saved = (n.value, n.slice)
+                n.value, n.slice = marker, ast.Constant(value=0)
+                tc = copy.deepcopy(t)
+                n.value, n.slice = saved
+
+                class _Put(ast.NodeTransformer):
+                    def visit_Subscript(self, m, v=v):
+                        if isinstance(m.value, ast.Name) and m.value.id == "__dispatch_marker__":
+                            return copy.deepcopy(v)
+                        return self.generic_visit(m)
+                tc = _Put().visit(tc)
+                chain = [ast.If(test=ast.Compare(left=copy.deepcopy(x), ops=[ast.Eq()], comparators=[copy.deepcopy(k)]),
+                                body=[tc], orelse=chain)]
+            tblk[tblk.index(t):tblk.index(t) + 1] = chain
+        blk.remove(s)
+        if not blk:
+            blk.append(ast.Pass())
+        ast.fix_missing_locations(fn)
+        return dispatch_dicts(fn)
 
 
 def procedure_tail(fn):
